@@ -143,6 +143,15 @@ func Arrival(t *rapid.T, g *model.Graph) *gripx.Arrival {
 	return a
 }
 
+// WithRepeat now and then names one member of an argument list twice (hasLabel(A, B, A)):
+// membership tests mean the same, an implementation that scans once per argument does not.
+func WithRepeat(t *rapid.T, l []string) []string {
+	if len(l) > 0 && rapid.IntRange(0, 5).Draw(t, "repeatArg") == 0 {
+		return append(l, l[rapid.IntRange(0, len(l)-1).Draw(t, "repeatWhich")])
+	}
+	return l
+}
+
 // ---------------------------------------------------------------------------------
 // has-expressions that are (mostly) defined cells over the Data universe
 
@@ -309,9 +318,9 @@ func leadFilter(t *rapid.T, st *tstate) model.Step {
 	}
 	switch rapid.IntRange(0, 7).Draw(t, "leadKind") {
 	case 0, 1:
-		return model.S("hasLabel", rapid.SliceOfNDistinct(rapid.SampledFrom(append(append([]string{}, lbls...), "nolabel")), 1, 2, rapid.ID[string]).Draw(t, "labels")...)
+		return model.S("hasLabel", WithRepeat(t, rapid.SliceOfNDistinct(rapid.SampledFrom(append(append([]string{}, lbls...), "nolabel")), 1, 2, rapid.ID[string]).Draw(t, "labels"))...)
 	case 2:
-		return model.S("hasId", rapid.SliceOfNDistinct(rapid.SampledFrom(ids), 1, 3, rapid.ID[string]).Draw(t, "ids")...)
+		return model.S("hasId", WithRepeat(t, rapid.SliceOfNDistinct(rapid.SampledFrom(ids), 1, 3, rapid.ID[string]).Draw(t, "ids"))...)
 	case 3:
 		return model.Step{Op: "has", Has: condFor(t, "_label")}
 	case 4:
@@ -357,14 +366,14 @@ func nextStep(t *rapid.T, st *tstate, o TravOpts) ([]model.Step, bool) {
 		if !isV {
 			pool = EdgeLabels
 		}
-		return one(model.S("hasLabel", rapid.SliceOfNDistinct(rapid.SampledFrom(pool), 1, 2, rapid.ID[string]).Draw(t, "labels")...))
+		return one(model.S("hasLabel", WithRepeat(t, rapid.SliceOfNDistinct(rapid.SampledFrom(pool), 1, 2, rapid.ID[string]).Draw(t, "labels"))...))
 	})
 	add(1, func() ([]model.Step, bool) {
 		pool := VertexIDs
 		if !isV {
 			pool = EdgeIDs[:6]
 		}
-		return one(model.S("hasId", rapid.SliceOfNDistinct(rapid.SampledFrom(pool), 1, 3, rapid.ID[string]).Draw(t, "ids")...))
+		return one(model.S("hasId", WithRepeat(t, rapid.SliceOfNDistinct(rapid.SampledFrom(pool), 1, 3, rapid.ID[string]).Draw(t, "ids"))...))
 	})
 	add(2, func() ([]model.Step, bool) {
 		return one(model.S("hasKey", rapid.SliceOfNDistinct(rapid.SampledFrom([]string{"k", "n", "s", "l", "a", "a.k", "nope"}), 1, 2, rapid.ID[string]).Draw(t, "keys")...))
